@@ -34,8 +34,9 @@ RULES = {
     "R8": "multivariate normal draw: triangularity typestate (mean Q^-1 b, covariance Q^-1)",
     "R9": "exported state wiring and predictor == _reconstruct_Mu under renaming",
     "R10": "the row-index lists the blocks read through hold row numbers derived from the sampler's row count",
+    "R11": "encode_obs hands out (y, cline, dd1, dd2) - the four observation lists, each under its own name and in this order; n_obs is len(self.y)",
 }
-MIN = {"R1": 3, "R2": 5, "R3": 7, "R4": 18, "R5": 5, "R6": 9, "R7": 2, "R8": 3, "R9": 3, "R10": 3}
+MIN = {"R1": 3, "R2": 5, "R3": 7, "R4": 18, "R5": 5, "R6": 9, "R7": 2, "R8": 3, "R9": 3, "R10": 3, "R11": 2}
 TRUSTED = ["own derivation of the full conditionals from the stated model (table BLOCKS below, DESIGN.md A.4)",
            "numpy/scipy: cholesky returns the lower factor; solve_triangular / cho_solve semantics",
            "row stacks distribute over right-multiplication (np.concatenate([a, b]) @ v == concatenate([a @ v, b @ v]))"]
@@ -1034,7 +1035,29 @@ def r10(ctx):
     ctx.borrow(C04.row_numbers_from_row_count, "R10", "R10")
 
 
-RULE_FUNCS = [r1, r234, r5, r6, r7, r8, r9, r10]
+def r11(ctx):
+    """every block unpacks `y, cline, dd1, dd2 = self.encode_obs()` by position: the accessor must return the four stored lists as
+    arrays, each position from the like-named list (a swap of dd1 / dd2, or y taken from another list, silently changes every block)"""
+    f = ctx.fn(f"{IMPL}.encode_obs")
+    rs = returns(f.node)
+    ctx.need(len(rs) == 1 and isinstance(rs[0].value, ast.Tuple), f"{f.site()}: a single returned tuple expected")
+    env = single_defs(f.node)
+    got = []
+    for e in rs[0].value.elts:
+        e = inline(e, env)
+        while isinstance(e, ast.Call) and call_name(e) in ("np.array", "np.asarray", "np.asanyarray") and e.args:
+            e = e.args[0]
+        got.append(U(e))
+    want = ["self.y", "self.cline", "self.dd1", "self.dd2"]
+    ctx.check("R11", f"{f.site()}::positions", got == want, "returns (y, cline, dd1, dd2) built from self.y, self.cline, self.dd1, self.dd2",
+              f"encode_obs returns {got}, not {want}: the blocks unpack it by position")
+    g = ctx.fn(f"{IMPL}.n_obs")
+    rr = returns(g.node)
+    ok = len(rr) == 1 and U(rr[0].value).replace(" ", "") in ("len(self.y)", "len(self.cline)", "len(self.dd1)", "len(self.dd2)")
+    ctx.check("R11", f"{g.site()}::row-count", ok, "n_obs is the number of stored observations", f"n_obs returns `{U(rr[0].value) if rr else None}`")
+
+
+RULE_FUNCS = [r1, r234, r5, r6, r7, r8, r9, r10, r11]
 
 
 def run(ctx):
